@@ -2320,6 +2320,7 @@ func TestVerifReplay(t *testing.T) {
 		pos := 0
 		tree, wellFormed := parse(ls2, &pos, "", true)
 		m := mustache.NewMustacheTemplate()
+		if len(ls) % 2 == 0 { m.SetDefaultVariables(nil) }   // "whatever the default variables were set to"
 		var err error
 		panicked := false
 		func() { defer func() { if r := recover(); r != nil { t.Errorf("%q: SetTemplate panicked: %v", tpl, r); bad++; panicked = true } }(); err = m.SetTemplate(tpl) }()
